@@ -22,11 +22,22 @@ import numericalunits as nu
 
 QUANT = ['length', 'mass', 'time', 'energy', 'charge']
 QDIM = {'length': ut.L_, 'mass': ut.M_, 'time': ut.T_, 'energy': ut.ENERGY, 'charge': ut.Q_}
-QNAMES = {'length': ['m', 'cm', 'nm', 'angstrom', 'um', 'pm', 'aBohr', 'inch'],
+QNAMES = {'length': ['m', 'cm', 'nm', 'angstrom', 'um', 'pm', 'aBohr', 'inch', 'Å'],
           'mass': ['kg', 'g', 'amu', 'pg', 'mg', 'me'],
           'time': ['s', 'ps', 'fs', 'ns', 'us', 'minute'],
           'energy': ['J', 'eV', 'erg', 'meV', 'kJ', 'kcal', 'Ry'],
           'charge': ['C', 'e', 'mC', 'uC']}
+# an astronomer's choice of working units; only ever used together (a parsec with femtoseconds drives numericalunits'
+# derived constants out of the float range, which is not the parser's or the table's fault)
+ASTRO = {'length': ['pc', 'lightyear', 'astro_unit'], 'mass': ['Msolar', 'MEarth'], 'time': ['year', 'day']}
+
+
+def draw_names(r, quantities):
+    if r.random() < 0.15 and all(q in ASTRO for q in quantities):
+        return {q: r.choice(ASTRO[q]) for q in quantities}
+    return {q: r.choice(QNAMES[q]) for q in quantities}
+
+
 # every subset of 1..4 quantities that does not fix energy AND all of length, mass, time
 SUBSETS = [c for k in range(1, 5) for c in itertools.combinations(QUANT, k)
            if not {'length', 'mass', 'time', 'energy'} <= set(c)]
@@ -75,7 +86,7 @@ class UnitsEngine(Engine):
     expected_probes = ['named_after_random', 'unseeded_reset', 'named_sweep_subsets', 'precedence_pow_before_mul',
                        'precedence_left_to_right_div', 'nested_parens', 'whitespace_variants', 'cross_epoch_compared',
                        'style_fit_done', 'literal_with_unit', 'array_roundtrip', 'refused_reset_raised', 'integer_dtype_value',
-                       'scribble_on_literal_result', 'named_keywords_in_other_order']
+                       'scribble_on_literal_result', 'named_keywords_in_other_order', 'scribble_on_unit_table']
     rule = ('Each run is a history of up to 40 operations on the process-global unit tables: working-unit resets (seeded '
             'random, unseeded random through the patched random seam, SI, atomman default, named subsets of length/mass/'
             'time/energy/charge with unit names drawn from a 31-name vocabulary, refused resets) interleaved with queries: '
@@ -175,9 +186,14 @@ class UnitsEngine(Engine):
                 op['entropy'] = r.getrandbits(62)
             elif kind == 'named':
                 sub = r.choice(SUBSETS)
-                op['named'] = {q: r.choice(QNAMES[q]) for q in sub}
+                op['named'] = draw_names(r, sub)
+                if any(v in sum(ASTRO.values(), []) for v in op['named'].values()):
+                    ctx.probe('astronomical_working_units')
                 # keyword arguments in whatever order the caller wrote them (replay files sort dict keys: the order is recorded)
                 op['order'] = r.sample(list(sub), len(sub))
+            if r.random() < 0.15:
+                # the caller has overwritten an entry of the table before asking for new working units
+                op['scribble'] = r.choice(['mm', 'eV', 'kg', 'm', 'angstrom', 'GPa'])
             return op
         if k == 'roundtrip':
             shape = r.choice([(), (), (3,), (2, 3), (1,)])
@@ -205,7 +221,8 @@ class UnitsEngine(Engine):
             return {'op': 'convert', 'e1': e1, 'e2': e2, 'x': r.choice([1.0, r.uniform(-100, 100), 10 ** r.uniform(-6, 6)])}
         if k == 'literal':
             val = r.choice(['1.5', '-2', '3e-2', '[1.0, 2.0, 3.0]', '[[1, 2], [3, 4]]', '0', '(1, 2, 3)', '(7,)', '((1, 2), (3, 4))',
-                            '(0.5, -1.5)', '[ 1.0 , 2.0 ]', '2.5E+1', '.5', '-.25e1'])
+                            '(0.5, -1.5)', '[ 1.0 , 2.0 ]', '2.5E+1', '.5', '-.25e1', '1.5, 2.5, 3.5', '4, 5', '[1, 2, ]', '[1.0, 2.0,\n ]',
+                            '(3, 4, )'])
             u = r.choice(['', 'eV', 'angstrom', 'm/s', 'kg*m / s^2', 'GPa', 'eV/angstrom^3', ' nm ', 'J/(m^2)', 'kcal/(mol*angstrom)',
                           '(m/s)^2', 'eV/(angstrom^3)', '(kg*m)/(s^2)'])
             return {'op': 'literal', 'value': val, 'unit': u, 'gap': r.choice([' ', '  '])}
@@ -220,8 +237,15 @@ class UnitsEngine(Engine):
         k = op['op']
         ctx.op(k)
         shape = ''
+        if k != 'reset' and k != 'sweep' and k != 'refused' and st.get('astro'):
+            # parsecs, solar masses and years as working units push ordinary expressions towards the ends of the float
+            # range; in such an epoch only the clause about the chosen units themselves is evaluated (at the reset)
+            ctx.ev('skip', k)
+            return
         if k == 'reset':
             self._reset(ctx, st, op)
+            astro_names = set(sum(ASTRO.values(), []))
+            st['astro'] = op['kind'] == 'named' and any(v in astro_names for v in (op.get('named') or {}).values())
             shape = op['kind'] + ('/' + '+'.join(sorted(op['named'])) if op['kind'] == 'named' else '')
             ctx.changes += 1
         elif k == 'roundtrip':
@@ -247,6 +271,10 @@ class UnitsEngine(Engine):
     # -- resets
     def _reset(self, ctx, st, op):
         kind = op['kind']
+        if op.get('scribble') and op['scribble'] in uc.unit:
+            uc.unit[op['scribble']] = 5253.0
+            ctx.fault('scribble_on_unit_table')
+            ctx.probe('scribble_on_unit_table')
         if kind == 'seed':
             ctx.must('C09.X', uc.reset_units, op['seed'], klass='reset/seed')
         elif kind == 'unseeded':
@@ -293,6 +321,7 @@ class UnitsEngine(Engine):
             named = {q: vocab[q] for q in sub}
             ctx.must('C09.X', uc.reset_units, klass='reset/named/' + '+'.join(sorted(named)), **named)
             self._check_named(ctx, named, after=st['last_kind'])
+            st['astro'] = False
             ctx.probe('named_sweep_subsets')
             st['last_kind'] = 'named'
         st['base'] = ut.base_of(nu)
